@@ -7,6 +7,7 @@ def dispatchNames (line : String) : String :=
   | "uc" :: args => handleUc args
   | "tm" :: args => handleTm args
   | "gi" :: args => handleGi args
+  | "mt" :: args => handleMt args
   | _ => "bad-op"
 
 partial def loopNames (h : IO.FS.Stream) (out : IO.FS.Stream) : IO Unit := do
